@@ -19,14 +19,14 @@ CHECKS = {
         note='trusts scipp model table and the normal form; the magnitude rule bounds power products only (sums are not bounded)', ref='3 C05'),
     'C07': dict(
         level='proof', technique='abstract interpretation over unit and dtype domains; exhaustive dtype grid by case split',
-        text='Static proof relative to the scipp model table: for symbolic input units the result unit is the documented one and all u(p) cancel; every to_unit obligation is dimensionally satisfiable; no raw number is re-labelled with an input unit; the dtype contract holds at every point of the dtype grid {f64,f32,i64(,i32)}^k (finite, enumerated); over the unit grid ns..s x angstrom..km x ueV..J and the physical input ranges no float32 power-product intermediate of a scalar conversion kernel leaves the normal range of float32 (R5).',
+        text='Static proof relative to the scipp model table: for symbolic input units the result unit is the documented one and all u(p) cancel; every to_unit obligation is dimensionally satisfiable; no raw number is re-labelled with an input unit; the dtype contract holds at every point of the dtype grid {f64,f32,i64(,i32)}^k (finite, enumerated); over the unit grid ns..s x angstrom..km x ueV..J and the physical input ranges no float32 power-product intermediate of a scalar conversion kernel leaves the normal range of float32 (R5). The chopper-cascade helpers never squeeze an operand into an integer dtype and return double precision for integer and double operands.',
         note='trusted base: measured scipp 25.4 promotion table and unit algebra in sa/scipp_model.py, sa/units.py; same-unit preconditions of geometry kernels are a frozen table', ref='3 C07'),
 }
 
 CHECKS.update({
     'C03': dict(
         level='other', technique='abstract interpretation to vector/scalar normal forms; formula-recognition and invariance by substitution',
-        text='Static: the six Euclidean definitions hold as term identities; two_theta is one of the two recognised epsilon-accurate formulas and contains no acos/asin/cos of a normalised product; its shape confines it to [0, pi]; the normal form is invariant under beam swap and positive rescaling; no argument is written; the beamline graphs handed out by the public factory are one-step sound and selected by the truth value of the flag. The 1e-15 accuracy is Kahan\'s theorem about the recognised formula (cited).',
+        text='Static: the six Euclidean definitions hold as term identities; two_theta is one of the two recognised epsilon-accurate formulas and contains no acos/asin/cos of a normalised product; its shape confines it to [0, pi]; the normal form is invariant under beam swap and positive rescaling; no argument is written; the beamline graphs handed out by the public factory are one-step sound and selected by the truth value of the flag. The 1e-15 accuracy is Kahan\'s theorem about the recognised formula (cited). The public accessors of beamline_components (L1, L2, Ltotal, two_theta, positions, beams) return what transform_coords derives with the beamline graph of the requested scatter mode, unchanged in value, unit and dtype, for data of any dtype.',
         note='trusts scipp model table, term normal form, spec/formulas.py', ref='3 C03'),
     'C04': dict(
         level='other', technique='abstract interpretation of all dispatcher paths; sibling agreement against the documented construction',
@@ -34,11 +34,11 @@ CHECKS.update({
         note='trusts scipp model table and spec/formulas.py; continuity/limits follow from branch agreement and are not separately decided', ref='3 C04'),
     'C06': dict(
         level='other', technique='taint analysis (possibly-binned operands) inside the abstract interpreter; dense-vs-binned sibling comparison',
-        text='Static necessary conditions: every kernel reachable from a graph table applies only broadcasting operations to possibly-binned operands, reads unit/dtype only through elem_unit/elem_dtype (which dispatch to the event buffer), gives the same normal form in dense and binned interpretation and writes to no argument.',
+        text='Static necessary conditions: every kernel reachable from a graph table applies only broadcasting operations to possibly-binned operands, reads unit/dtype only through elem_unit/elem_dtype (which dispatch to the event buffer), gives the same normal form in dense and binned interpretation and writes to no argument. A decision on the size / shape of a possibly-binned operand (bins are counted for event data, elements for dense data) may refuse but never selects between two ways of computing the result.',
         note='per-event application and preservation of weights/masks/order are scipp.transform_coords (not analysed)', ref='3 C06'),
     'C08': dict(
         level='other', technique='abstract interpretation to linear forms over vector atoms and non-commutative matrix words',
-        text='Static: Q components are the fields of (2pi/lambda)(e_i-e_f); pack/unpack are inverse order-preserving permutations; hkl=inv(R UB)Q/(2pi) so 2pi R UB hkl reduces to Q by word cancellation; UB=U B; the kernels are total (no raising path for well-typed inputs, R6) and compute on unit-carrying variables, not on bare numbers taken out of their operands (R7).',
+        text='Static: Q components are the fields of (2pi/lambda)(e_i-e_f); pack/unpack are inverse order-preserving permutations; hkl=inv(R UB)Q/(2pi) so 2pi R UB hkl reduces to Q by word cancellation; UB=U B; the kernels are total (no raising path for well-typed inputs, R6) and compute on unit-carrying variables, not on bare numbers taken out of their operands (R7). The Q / hkl kernels keep no state between calls (no module-level write, no memoised result handed out).',
         note='conditioning (accuracy for ill-conditioned B) is runtime and not decided', ref='3 C08'),
 })
 
@@ -86,7 +86,7 @@ CHECKS.update({
 CHECKS.update({
     'C16': dict(
         level='other', technique='abstract interpretation with an object model (classes, prefixes as concrete strings, symbolic parameters); symbolic substitution for symmetry and half-maximum',
-        text='Static: evaluated normal forms of Gaussian/Lorentzian/pseudo-Voigt/polynomial(deg 1..6)/composite equal the closed forms; each peak is symmetric about loc and takes half its peak value at loc +/- fwhm/2 with the FWHM the model itself reports; units follow the parameters; results are prefix-independent; missing/unknown/un-prefixed/foreign-prefixed names are refused; the result has the dtype of x for float32 and int64 x; with_prefix acts on a copy.',
+        text='Static: evaluated normal forms of Gaussian/Lorentzian/pseudo-Voigt/polynomial(deg 1..6)/composite equal the closed forms; each peak is symmetric about loc and takes half its peak value at loc +/- fwhm/2 with the FWHM the model itself reports; units follow the parameters; results are prefix-independent; missing/unknown/un-prefixed/foreign-prefixed names are refused; the result has the dtype of x for float32 and int64 x; with_prefix acts on a copy. with_prefix also of a model that was evaluated before it was renamed.',
         note='normalisation is a cited property of the closed forms; guess() not decided; scale >= 1e-15 assumed (clamp)', ref='3 C16'),
 })
 
@@ -124,7 +124,7 @@ CHECKS.update({
         note='that delta_t(theta) describes the physical disk is the documented convention, not derived', ref='8'),
     'C11': dict(
         level='other', technique='witness-guided symbolic interpretation: vertices, windows and distances are symbols with exact rational witness values, comparisons are decided at the witness, reported vertices stay exact terms and are compared with a reference model written from the definition (spec/clip.py); floating-point exactness tags for the interpolation',
-        text='Static: the shear t+d*lambda*m_n/h and its composition law; chopping by one window edge (through Frame.chop) equals polygon-intersect-half-plane for every order type of 3- and 4-vertex polygons against the cut (both directions; exact terms for generic order types, numerically on the cut); Frame.chop refuses a chopper in front of the frame and otherwise reports exactly the polygons of the reference model for every subframe x window in any window order; FrameSequence.chop is independent of the listing order, chopping in two calls equals chopping in one, and __getitem__ propagates the last frame not beyond the distance (also with co-located choppers); an intersection vertex carries bit-exactly the window edge as its time and bit-exactly the endpoint wavelength when both endpoints carry the same wavelength; produced subframes are regular.',
+        text='Static: the shear t+d*lambda*m_n/h and its composition law; chopping by one window edge (through Frame.chop) equals polygon-intersect-half-plane for every order type of 3- and 4-vertex polygons against the cut (both directions; exact terms for generic order types, numerically on the cut); Frame.chop refuses a chopper in front of the frame and otherwise reports exactly the polygons of the reference model for every subframe x window in any window order; FrameSequence.chop is independent of the listing order, chopping in two calls equals chopping in one, and __getitem__ propagates the last frame not beyond the distance (also with co-located choppers); an intersection vertex carries bit-exactly the window edge as its time and bit-exactly the endpoint wavelength when both endpoints carry the same wavelength; produced subframes are regular. The reference model works from the windows supplied (nested, overlapping, unordered); what is compared is membership in the union of the polygons; the sequence a chop is applied to stays as it was and can be chopped again without history.',
         note='rounding of the interpolation for unequal endpoints is not decided; the reference model is trusted', ref='8'),
     'C12': dict(
         level='other', technique='abstract interpretation of the whole SQW builder over an abstract byte file (sa/absio.py: concrete bytes for integers and text, symbolic cells with width and byte order for floats) for a finite set of configurations; independent decoder of the documented layout (spec/sqwfmt.py); the package reader interpreted on the same file',
@@ -132,11 +132,11 @@ CHECKS.update({
         note='numpy tofile/tobytes/frombuffer/fromfile, struct and io are modelled (sa/sqwio.py); found and fixed F12 (string lengths declared in characters)', ref='8'),
     'C13': dict(
         level='other', technique='abstract round trip through the IR (symbolic model -> serializer -> registered parser) and through the abstract byte file (builder -> bytes -> independent decoder / package reader); the term domain tracks the unit bare numbers are expressed in',
-        text='Static: unit-carrying metadata fields come back with the physical value supplied (writer unit == reader label), 1-based indices are undone, integer metadata is converted in float64; for pixel counts / chunk sizes below, equal and above each other and the row count, pixel p row r on disk is float32(row r of pixel p converted to the declared unit) as an exact term, metadata holds N and per-row (min, max); containers hold one shared object referenced once per run (1-based); run ids + 1, meV, rad, angstrom/deg and the declared histogram units and shape on disk; Sqw.read_data_block returns models equal to those supplied with units of the same dimension, for direct and for indirect geometry (per-detector efix and 2-d en; found and fixed F13).',
+        text='Static: unit-carrying metadata fields come back with the physical value supplied (writer unit == reader label), 1-based indices are undone, integer metadata is converted in float64; for pixel counts / chunk sizes below, equal and above each other and the row count, pixel p row r on disk is float32(row r of pixel p converted to the declared unit) as an exact term, metadata holds N and per-row (min, max); containers hold one shared object referenced once per run (1-based); run ids + 1, meV, rad, angstrom/deg and the declared histogram units and shape on disk; Sqw.read_data_block returns models equal to those supplied with units of the same dimension, for direct and for indirect geometry (per-detector efix and 2-d en; found and fixed F13). Class names, version numbers and energy-mode numbers on disk are those of the documented layout (spec/sqwfmt.py), the builder calls are made in several orders, and the package reader hands out its model of every block.',
         note='Horace compatibility and float formatting not decided', ref='8'),
     'C14': dict(
         level='other', technique='finite-domain evaluation of the quoting/layout decision code in the abstract interpreter with an independent CIF 1.1 lexer as oracle; witness-guided interpretation of the loop builders and of save_cif with a text sink; known-findings list',
-        text='Static, finite decision space enumerated: the writer (Chunk.write, Loop.write, _format_value, _quotes_for_string_value, _write_comment, name setter) is folded over all strings up to length 3 (thorough: 4) from an alphabet with one representative per CIF 1.1 character class plus the reserved words; every produced fragment must be read by an independent CIF 1.1 lexer as exactly the supplied value(s); output is ASCII; comments never leak; save_cif starts the file with the CIF 1.1 magic line; the powder and calibration loops hold values in value columns and sqrt(variances) in _su columns (only when variances exist) as exact terms; author ids unique and role ids resolvable. One known finding (text field containing a line starting with ;).',
+        text='Static, finite decision space enumerated: the writer (Chunk.write, Loop.write, _format_value, _quotes_for_string_value, _write_comment, name setter) is folded over all strings up to length 3 (thorough: 4) from an alphabet with one representative per CIF 1.1 character class plus the reserved words; every produced fragment must be read by an independent CIF 1.1 lexer as exactly the supplied value(s); output is ASCII; comments never leak; save_cif starts the file with the CIF 1.1 magic line; the powder and calibration loops hold values in value columns and sqrt(variances) in _su columns (only when variances exist) as exact terms; author ids unique and role ids resolvable. One known finding (text field containing a line starting with ;). A number supplied with a variance is written in the compact value(su) notation on every path (abstract magnitudes); a builder keeps what earlier calls added, through CIF.save and save_cif.',
         note='trusts spec/cif11.py; number formatting is str(float); tags are outside the value quantifier', ref='3 C14, 9'),
     'C15': dict(
         level='other', technique='finite-domain interpretation of io/xye.py with recording stubs for numpy.savetxt/loadtxt over every combination of (variances, ndim, masks, coordinate set and alignment, bin edges, coord argument, header argument); symbolic table columns',
@@ -152,7 +152,7 @@ CHECKS.update({
         note='accuracy of the quadrature on the integrand and degenerate (tangent/parallel) rays are runtime numerics, not decided', ref='8'),
     'C19': dict(
         level='other', technique='abstract interpretation of the plateau and in-phase code with symbolic tokens for group/bins reductions and a record of coordinate stores; effect summaries',
-        text='Static: slope term and dtype discipline; the grouping coordinate is concat(0, cumsum(|slope| > atol in slope units)) as an exact term; the groups kept are those with size >= min_n_points; collapse = [bins.min, next representable above bins.max] for float, integer and datetime event coordinates with bins.mean data; in-phase predicate and filter; no argument written.',
+        text='Static: slope term and dtype discipline; the grouping coordinate is concat(0, cumsum(|slope| > atol in slope units)) as an exact term; the groups kept are those with size >= min_n_points; collapse = [bins.min, next representable above bins.max] for float, integer and datetime event coordinates with bins.mean data; in-phase predicate and filter; no argument written. Finite domain, decided at exact witness values: for every pattern of flat / exactly-at-tolerance / just-above / far-exceeding steps of short series (values near 1e6, coordinates near 1e9, float and integer coordinates) and every min_n_points the bins returned are exactly the maximal runs of the definition, in input order, each with its own points and coordinates; the in-phase filter over integer and single-precision frequencies narrows neither operand.',
         note='maximality/completeness of runs are runtime sequence properties and not decided', ref='8'),
     'C20': dict(
         level='other', technique='partial evaluation of the three table loaders and Atom.for_isotope on the bundled CSV files (read as data by an independent csv reader); finite-domain evaluation of the name parser; abstract interpretation of _assemble_scalar and the attenuation formula',
